@@ -201,6 +201,10 @@ def _tobool(x):
         return x != 0
     if isinstance(x, (_pyint, np.integer, _pybool, np.bool_)):
         return _pybool(x)
+    if isinstance(x, S.Sym) and not S.variables([x]):
+        fx = S.evalf(x, {})  # a closed constant such as 1/sqrt(2)
+        if _pyabs(fx) > 1e-9:
+            return True
     raise S.SymbolicTruthValue("boolean conversion of a symbolic value")
 
 
@@ -443,6 +447,26 @@ class Tensor:
         if self.a.dtype == object or (isinstance(ob, np.ndarray) and ob.dtype == object):
             raise UnsupportedOp("bitwise %s on a non-integer tensor" % what)
         return Tensor(_raw=_arr(f(self.a, ob)), dtype=self.dtype)
+
+    def nonzero(self, as_tuple=False):
+        if self.a.dtype == object:
+            if _b.any(isinstance(v, (S.Sym, S.SymC)) for v in self.a.reshape(-1)):
+                raise UnsupportedOp("nonzero of a tensor with symbolic entries")
+            mask = np.frompyfunc(lambda v: v != 0, 1, 1)(self.a).astype(bool)
+        else:
+            mask = self.a != 0
+        idx = np.argwhere(mask).astype(np.int64)
+        if as_tuple:
+            return tuple(Tensor(_raw=idx[:, k].copy(), dtype=int64) for k in range(idx.shape[1]))
+        return Tensor(_raw=idx, dtype=int64)
+
+    def __invert__(self):
+        if self.a.dtype == object:
+            raise UnsupportedOp("bitwise ~ on a non-integer tensor")
+        return Tensor(_raw=_arr(np.invert(self.a)), dtype=self.dtype)
+
+    def __xor__(self, o):
+        return self._intop(o, np.bitwise_xor, "^")
 
     def __rshift__(self, o):
         return self._intop(o, np.right_shift, ">>")
@@ -861,10 +885,14 @@ class Tensor:
 def _cmp(a, b, op):
     def one(x, y):
         if isinstance(x, S.Sym) or isinstance(y, S.Sym):
-            if op == "eq":
-                if x is y:
-                    return True
-                raise S.SymbolicTruthValue("comparison of symbolic tensor entries")
+            if op == "eq" and x is y:
+                return True
+            if not S.variables([v for v in (x, y) if isinstance(v, S.Sym)]):
+                # closed constants (1/sqrt(2), ...): decided numerically unless they are too close to call
+                fx = S.evalf(x, {}) if isinstance(x, S.Sym) else _pyfloat(x)
+                fy = S.evalf(y, {}) if isinstance(y, S.Sym) else _pyfloat(y)
+                if _pyabs(fx - fy) > 1e-9 * (1 + _pyabs(fx) + _pyabs(fy)):
+                    return {"eq": False, "ne": True, "lt": fx < fy, "le": fx < fy, "gt": fx > fy, "ge": fx > fy}[op]
             raise S.SymbolicTruthValue("comparison of symbolic tensor entries")
         if op == "eq":
             return x == y
